@@ -166,7 +166,7 @@ def inline_call(caller, callee, call_id, seq):
     # ---- result variable -------------------------------------------------------------------------------
     ret_t = callee.get("ret", {})
     void = ret_t.get("ct") in (None, "void")
-    retname = "%s.ret" % tag
+    retname = "%s.$ret" % tag
     ret_assign = {}
     if not void:
         for n in list(nodes[off:]):
